@@ -102,7 +102,7 @@ theorem planLaunch_nextPlate_inputs {p : Prog} {l' : Launch} (hl : planLaunch cf
 
 theorem launchOf_firstBatch_test {mode : Mode} {t : Tree} {nx : Next} {e : Option (List Nat)} {l : Launch}
     (h : launchOf mode t nx e = .ok l) (hw : l.wf = .firstBatch) :
-    ∃ tf, l.test = some ⟨0, 0, tf⟩ ∧
+    ∃ tf, l.test = some ⟨0, 0, tf⟩ ∧ nx.iter ≠ 0 ∧
       ((findIter 0 t.iters).bind (fun it => findPlate 0 it.plates)).bind testScreenOf = some tf := by
   unfold launchOf at h
   cases mode with
@@ -110,14 +110,16 @@ theorem launchOf_firstBatch_test {mode : Mode} {t : Tree} {nx : Next} {e : Optio
     simp only at h
     split at h
     · injection h with h; subst h; cases hw
-    · split at h
-      · split at h
+    · rename_i h00
+      split at h
+      · rename_i hp0
+        split at h
         · cases h
         · rename_i tf htf
           split at h
           · cases h
           · injection h with h; subst h
-            refine ⟨tf, rfl, ?_⟩
+            refine ⟨tf, rfl, fun hi => h00 ⟨hi, hp0⟩, ?_⟩
             rw [← htf]
             cases findIter 0 t.iters <;> rfl
       · split at h
@@ -132,5 +134,26 @@ theorem launchOf_firstBatch_test {mode : Mode} {t : Tree} {nx : Next} {e : Optio
     · split at h
       · cases h
       · injection h with h; subst h; cases hw
+
+/-- **first plate of a later iteration** (workflow `retrospective --initialize false`): the test screen is the file that
+    `get_test_screen_from_job_output` finds under `iter_0/plate_0` -- published by the very first step of the run -/
+theorem planLaunch_firstBatch_test (hB : 1 ≤ cfg.B) {p : Prog} (hc : CRun cfg p) {l' : Launch}
+    (hl : planLaunch cfg p = .ok l') (hw : l'.wf = .firstBatch) :
+    ∃ l00 tf, p.flat.head? = some l00 ∧ l'.test = some ⟨0, 0, tf⟩ ∧ testScreenOf ⟨0, some (cfg.pubs l00)⟩ = some tf := by
+  unfold planLaunch at hl
+  obtain ⟨tf, ht, hi, hf⟩ := launchOf_firstBatch_test hl hw
+  rw [nextOfProg_iter] at hi
+  have hp := hc.ok cfg hB
+  cases hcs : p.cs with
+  | nil => rw [hcs] at hi; exact absurd rfl hi
+  | cons c0 cs' =>
+    have hc0 : c0.length = cfg.B := hp.1 c0 (by rw [hcs]; simp)
+    cases hc0' : c0 with
+    | nil => rw [hc0'] at hc0; simp at hc0; omega
+    | cons l00 r =>
+      refine ⟨l00, tf, by simp [Prog.flat, hcs, hc0'], ht, ?_⟩
+      simp only [treeIters, hcs, hc0', itersFrom, platesFrom, List.cons_append, findIter, List.find?_cons_of_pos,
+        decide_true, Option.bind_some, findPlate] at hf
+      simpa using hf
 
 end Batchie.Orchestrator
